@@ -35,7 +35,7 @@ NormModel(j) == [open |-> j.open, base |-> j.base, sp |-> SeqRange(j.sp),
 NormObs(j) == [M |-> [m \in DOMAIN j.M |-> NormModel(j.M[m])], ios |-> j.ios, sane |-> j.sane]
 NormEv(j) == IF j.op = "write_read"
              THEN [op |-> j.op, m |-> j.m, res |-> j.res, rt |-> SeqRange(j.rt),
-                   rspecs |-> SeqRange(j.rspecs)]
+                   rspecs |-> SeqRange(j.rspecs), orefs_ok |-> j.orefs_ok]
              ELSE j
 
 \* algorithm-layer state read off an observation
@@ -62,6 +62,7 @@ DriftLabels(pre, e, post, vals) ==
           THEN {} ELSE {"DRIFT.refs"})
     \cup (IF \A m \in DOMAIN o.M : o.M[m].v2r = post.M[m].v2r THEN {} ELSE {"DRIFT.v2r"})
     \cup (IF o.ios = post.ios THEN {} ELSE {"DRIFT.ios"})
+    \cup (IF o.sane = post.sane THEN {} ELSE {"DRIFT.sane"})
     \cup (IF \A m \in DOMAIN o.M : o.M[m].specs = post.M[m].specs /\ o.M[m].gs = post.M[m].gs
           THEN {} ELSE {"DRIFT.specs"})
 
